@@ -327,6 +327,27 @@ fn programs() -> Vec<Program> {
             body: Box::new(move || relay(a, b)),
         });
     }
+    if std::env::var_os("LSLOOM_THOROUGH").is_some() {
+        // every unordered triple of nine operations on three handles of one buffer (preemption bound 3),
+        // and every unordered pair of them through a shared reference
+        let ops: [u8; 9] = [0, 1, 2, 3, 4, 5, 6, 7, 11];
+        for (x, &a) in ops.iter().enumerate() {
+            for (y, &b) in ops.iter().enumerate().skip(x) {
+                for &c in ops.iter().skip(y) {
+                    v.push(Program {
+                        name: format!("t3-{}-{}-{}", OP_NAMES[a as usize], OP_NAMES[b as usize], OP_NAMES[c as usize]),
+                        bound: Some(3),
+                        body: Box::new(move || triple(a, b, c)),
+                    });
+                }
+                v.push(Program {
+                    name: format!("b2-{}-{}", OP_NAMES[a as usize], OP_NAMES[b as usize]),
+                    bound: None,
+                    body: Box::new(move || borrowed(a, b)),
+                });
+            }
+        }
+    }
     v
 }
 
